@@ -14,7 +14,9 @@ use serde_json::{json, Value};
 use std::collections::HashSet;
 
 #[derive(Clone, Copy, PartialEq, Eq, Debug, Hash)]
-pub enum Step { Set(u8), Get, Op(u8) }
+pub enum Step { Set(u8), Get, Op(u8),
+    /// the thread terminates here (its thread-local destructors run) and is joined before the next step starts
+    Exit }
 
 pub const OP_NAMES: [&str; 30] = ["round", "div_rounded", "mul_rounded", "*", "/", "quantize", "format!({:.0})", "* (product beyond i128)", "/ (scaled dividend beyond i128)", "mul_rounded (product beyond i128)", "div_rounded (scaled dividend beyond i128)",
     // the other operand forms and entry points that consult the thread's mode
@@ -90,6 +92,7 @@ fn exec_step(s: Step, sigs: &[Vec<i128>]) -> u8 {
         Step::Set(m) => { RoundingMode::set_default(ALL_MODES[m as usize]); 254 }
         Step::Get => mode_idx(RoundingMode::default()) as u8,
         Step::Op(k) => decode(&probe(k), sigs),
+        Step::Exit => unreachable!("Exit is performed by the scheduler, not by the thread"),
     }
 }
 
@@ -103,10 +106,17 @@ pub fn execute(scripts: &[Vec<Step>], schedule: &[u8], sigs: &[Vec<i128>]) -> Ve
     use std::sync::atomic::{AtomicU8, AtomicUsize, Ordering};
     let pos = AtomicUsize::new(0);
     let obs: Vec<AtomicU8> = schedule.iter().map(|_| AtomicU8::new(253)).collect();
+    // Thread termination is a scheduling event too (thread-local destructors run then): a thread whose script ends
+    // with Step::Exit returns at that slot and the controller joins it - destructors included - before the position
+    // counter moves on; every other thread stays alive until the whole schedule has been executed. Without this,
+    // WHEN a finished thread terminates relative to the other threads' later steps would be up to the OS, and a
+    // defect in a thread-exit hook would show up irreproducibly (seeded change C19-m5).
+    let n_steps = schedule.len();
     std::thread::scope(|sc| {
+        let mut handles = Vec::new();
         for (t, script) in scripts.iter().enumerate() {
             let (pos, obs) = (&pos, &obs);
-            sc.spawn(move || {
+            handles.push(Some(sc.spawn(move || {
                 let mut pc = 0usize;
                 for (i, &who) in schedule.iter().enumerate() {
                     if who as usize != t { continue; }
@@ -116,20 +126,35 @@ pub fn execute(scripts: &[Vec<Step>], schedule: &[u8], sigs: &[Vec<i128>]) -> Ve
                         spins += 1;
                         if spins < 200 { std::hint::spin_loop(); } else { std::thread::yield_now(); }
                     }
+                    if script[pc] == Step::Exit { return; } // the controller joins this thread and advances the counter
                     let o = exec_step(script[pc], sigs);
                     pc += 1;
                     obs[i].store(o, Ordering::Relaxed);
                     pos.store(i + 1, Ordering::Release);
                 }
-            });
+                // stay alive until every step of every thread has been executed
+                while pos.load(Ordering::Acquire) < n_steps { std::thread::yield_now(); }
+            })));
+        }
+        // controller: performs the Exit slots
+        let mut pcs = vec![0usize; scripts.len()];
+        for (i, &who) in schedule.iter().enumerate() {
+            let t = who as usize;
+            let step = scripts[t][pcs[t]];
+            pcs[t] += 1;
+            if step != Step::Exit { continue; }
+            while pos.load(Ordering::Acquire) != i { std::thread::yield_now(); }
+            handles[t].take().expect("thread exits once").join().expect("thread panicked");
+            obs[i].store(252, Ordering::Relaxed);
+            pos.store(i + 1, Ordering::Release);
         }
     });
     assert_eq!(pos.load(std::sync::atomic::Ordering::Acquire), schedule.len(), "schedule not completed");
     obs.iter().map(|o| o.load(std::sync::atomic::Ordering::Relaxed)).collect()
 }
 
-fn enc_step(s: Step) -> String { match s { Step::Set(m) => format!("S{}", m), Step::Get => "G".into(), Step::Op(k) => format!("O{}", k) } }
-fn dec_step(s: &str) -> Step { match &s[..1] { "S" => Step::Set(s[1..].parse().unwrap()), "G" => Step::Get, _ => Step::Op(s[1..].parse().unwrap()) } }
+fn enc_step(s: Step) -> String { match s { Step::Set(m) => format!("S{}", m), Step::Get => "G".into(), Step::Op(k) => format!("O{}", k), Step::Exit => "X".into() } }
+fn dec_step(s: &str) -> Step { match &s[..1] { "S" => Step::Set(s[1..].parse().unwrap()), "G" => Step::Get, "X" => Step::Exit, _ => Step::Op(s[1..].parse().unwrap()) } }
 
 /// Run `f` in a forked child of this (single-threaded) executor process and
 /// return the bytes it produces. Every schedule thus starts from the pristine
@@ -266,7 +291,7 @@ pub fn interleavings(counts: &[usize]) -> Vec<Vec<u8>> {
 }
 
 fn show_step(s: Step) -> String {
-    match s { Step::Set(m) => format!("Set({})", mode_name(ALL_MODES[m as usize])), Step::Get => "Get".into(), Step::Op(k) => format!("Op({})", OP_NAMES[k as usize]) }
+    match s { Step::Set(m) => format!("Set({})", mode_name(ALL_MODES[m as usize])), Step::Get => "Get".into(), Step::Op(k) => format!("Op({})", OP_NAMES[k as usize]), Step::Exit => "Exit".into() }
 }
 
 fn mname(m: u8) -> String { if m == 255 { "<no mode matches>".into() } else { mode_name(ALL_MODES[m as usize]).to_string() } }
@@ -291,6 +316,7 @@ fn check_obs(family: &str, scripts: &[Vec<Step>], schedule: &[u8], obs: &[u8], l
         let step = scripts[t][pcs[t] as usize];
         match step {
             Step::Set(m) => model[t] = m,
+            Step::Exit => {} // the thread is gone; nothing to observe, the other threads' modes are untouched
             Step::Get | Step::Op(_) => {
                 let want = model[t];
                 let got = obs[i];
@@ -299,7 +325,7 @@ fn check_obs(family: &str, scripts: &[Vec<Step>], schedule: &[u8], obs: &[u8], l
                     let rel = if got == 255 { "result matches no rounding mode" } else if others.contains(&got) && got != 5 { "used another thread's mode" } else if got == 5 && want != 5 { "fell back to RoundHalfEven although the thread set another mode" } else if others.contains(&got) { "used another thread's mode" } else { "used a mode no thread has set" };
                     let what = match step { Step::Get => "RoundingMode::default()".to_string(), Step::Op(k) => format!("Op({})", OP_NAMES[k as usize]), _ => unreachable!() };
                     let scr: Vec<Vec<String>> = scripts.iter().map(|s| s.iter().map(|x| show_step(*x)).collect()).collect();
-                    let w = json!({"family": family, "scripts": scripts.iter().map(|s| s.iter().map(|x| match x { Step::Set(m) => json!(["set", m]), Step::Get => json!(["get"]), Step::Op(k) => json!(["op", k]) }).collect::<Vec<_>>()).collect::<Vec<_>>(), "schedule": schedule});
+                    let w = json!({"family": family, "scripts": scripts.iter().map(|s| s.iter().map(|x| match x { Step::Set(m) => json!(["set", m]), Step::Get => json!(["get"]), Step::Op(k) => json!(["op", k]), Step::Exit => json!(["exit"]) }).collect::<Vec<_>>()).collect::<Vec<_>>(), "schedule": schedule});
                     l.violation(format!("{} | {} | {}", family, what, rel), || (format!("thread {} step {} at schedule position {} observed {} but its own mode is {}; scripts={:?} schedule={:?}", t, show_step(step), i, mname(got), mname(want), scr, schedule), w));
                 }
             }
@@ -313,7 +339,7 @@ fn check_obs(family: &str, scripts: &[Vec<Step>], schedule: &[u8], obs: &[u8], l
 fn parse_scripts(w: &Value) -> (Vec<Vec<Step>>, Vec<u8>) {
     let scripts = w["scripts"].as_array().unwrap().iter().map(|s| s.as_array().unwrap().iter().map(|x| {
         let a = x.as_array().unwrap();
-        match a[0].as_str().unwrap() { "set" => Step::Set(a[1].as_u64().unwrap() as u8), "get" => Step::Get, _ => Step::Op(a[1].as_u64().unwrap() as u8) }
+        match a[0].as_str().unwrap() { "set" => Step::Set(a[1].as_u64().unwrap() as u8), "get" => Step::Get, "exit" => Step::Exit, _ => Step::Op(a[1].as_u64().unwrap() as u8) }
     }).collect()).collect();
     let schedule = w["schedule"].as_array().unwrap().iter().map(|x| x.as_u64().unwrap() as u8).collect();
     (scripts, schedule)
@@ -385,7 +411,7 @@ fn lifecycle(_sigs: &[Vec<i128>], l: &mut Local, states: &mut HashSet<Vec<u8>>, 
 
 fn class_name(c: u64) -> String {
     match c >> 8 { 0 => "F0 single thread".to_string(), 1 => format!("F1 two threads x three steps/op {}", OP_NAMES[(c & 255) as usize]), 2 => format!("F2 three threads x two steps/op {}", OP_NAMES[(c & 255) as usize]),
-        3 => format!("F3 lifecycle/op {}", OP_NAMES[(c & 255) as usize]), 5 => format!("F5 all scripts/op {}", OP_NAMES[(c & 255) as usize]), 4 => format!("F4 three threads x three steps/op {}", OP_NAMES[(c & 255) as usize]), _ => format!("class {}", c) }
+        3 => format!("F3 lifecycle/op {}", OP_NAMES[(c & 255) as usize]), 5 => format!("F5 all scripts/op {}", OP_NAMES[(c & 255) as usize]), 6 => format!("F6 thread exit/op {}", OP_NAMES[(c & 255) as usize]), 4 => format!("F4 three threads x three steps/op {}", OP_NAMES[(c & 255) as usize]), _ => format!("class {}", c) }
 }
 
 pub fn run(tier: Tier) -> i32 {
@@ -496,6 +522,27 @@ pub fn run(tier: Tier) -> i32 {
     });
     run.stage("F5 all scripts of three steps over {Set(own), Set(HalfEven), Op}", json!({"script_pairs": 729, "interleavings": il2.len(), "own_mode_pairs": own_pairs.len()}));
 
+    // F6: thread termination as a scheduled event: thread B runs every two-step script over {Set(own), Set(HalfEven)}
+    // and then EXITS (joined, thread-local destructors run) at every possible point of thread A's script; A keeps
+    // rounding afterwards. Catches exit hooks / guards that touch process-wide state.
+    let mut it6: Vec<(u8, u8, u8)> = Vec::new();
+    if th { for a in 0..8u8 { for b in 0..8u8 { if a != b { for k in 0..N_KINDS { it6.push((a, b, k)); } } } } }
+    else { for a in 0..8u8 { for j in 0..6u8 { it6.push((a, (3 * a + 1 + j) % 8, (5 * a + 7 * j) % N_KINDS)); } } }
+    run.par_for_n(w2, &it6, || {}, |&(a, b, k), l| {
+        let mut st = HashSet::new();
+        let a_scripts = [vec![Step::Set(a), Step::Op(k), Step::Op(k)], vec![Step::Op(k), Step::Set(a), Step::Op(k)]];
+        let balpha = [Step::Set(b), Step::Set(5)];
+        for sa in &a_scripts { for b1 in balpha { for b2 in balpha {
+            let scripts = vec![sa.clone(), vec![b1, b2, Step::Exit]];
+            let all_obs = run_batch(&scripts, &il2);
+            for (s, o) in il2.iter().zip(all_obs.iter()) { check_obs("F6 thread exit as a scheduled step", &scripts, s, o, l, &mut st); transitions.fetch_add(s.len() as u64, std::sync::atomic::Ordering::Relaxed); schedules_run.fetch_add(1, std::sync::atomic::Ordering::Relaxed); }
+            l.distinct += il2.len() as u64;
+        }}}
+        if l.class(6 << 8 | k as u64) { l.sample(6 << 8 | k as u64, json!({"scripts": [a_scripts[0].iter().map(|x| show_step(*x)).collect::<Vec<_>>(), vec![show_step(Step::Set(b)), show_step(Step::Set(5)), show_step(Step::Exit)]], "schedule": il2[5]})); }
+        all_states.lock().unwrap().extend(st.into_iter().map(|mut v| { v.insert(0, 6); v }));
+    });
+    run.stage("F6 thread exit as a scheduled step", json!({"items": it6.len(), "a_scripts": 2, "b_scripts": 4, "interleavings": il2.len()}));
+
     // F4 (thorough): three threads x three steps: 1680 interleavings x 8*7*6 mode assignments (op kind rotates)
     if th {
         let il33 = interleavings(&[3, 3, 3]);
@@ -529,12 +576,14 @@ pub fn run(tier: Tier) -> i32 {
     let mut required: Vec<Vec<u64>> = Vec::new();
     for k in 0..(N_KINDS as u64) { required.push(vec![1 << 8 | k]); required.push(vec![2 << 8 | k]); required.push(vec![3 << 8 | k]); }
     required.push((0..(N_KINDS as u64)).map(|k| 5 << 8 | k).collect());
+    required.push((0..(N_KINDS as u64)).map(|k| 6 << 8 | k).collect());
     finish(Finish {
         run: &run,
         level: "model_checking",
-        rule: "All interleavings (depth-first over program counters, no sampling, no reduction) of: F1 two threads x three steps (20 interleavings) x 9 script-template pairs {set-op-get, op-set-op, get-op-get}^2 x 64 mode pairs x 11 core operation kinds (round, div_rounded, mul_rounded, *, /, quantize, Display with precision, and *, /, mul_rounded, div_rounded on operands whose intermediate exceeds 128 bits) plus 8 mode pairs (every mode once on either thread) x 19 operand-form kinds (checked_round, checked_div, the integer-operand forms of / , checked_div and div_rounded in both positions incl. i128, /=, *=, the by-reference forms, Display with width and precision); F0 one thread: every mode x every one of the 30 kinds; F2 three threads x two steps (90 interleavings) x 2 script variants x the same (mode pair, kind) list; F5 ALL script pairs of three steps over the per-thread alphabet {Set(own mode), Set(RoundHalfEven), Op} (729 pairs x 20 interleavings x own-mode pairs: repeated, redundant and reset set_default calls); F3 lifecycle histories (thread dies then another is spawned; parent with non-default mode spawns child; child sets, parent re-observes; double set) x the same (mode pair, kind) list; thorough: F4 three threads x three steps (1680 interleavings) x 336 mode assignments. Each schedule is executed on fresh OS threads; every Get/Op observation is compared with a per-thread reference model (map thread -> mode, initially RoundHalfEven). An Op observation is a 14-entry probe vector whose value identifies the mode the arithmetic really used. evaluations = schedules executed; states = distinct (family, program counters, model modes).".into(),
+        rule: "All interleavings (depth-first over program counters, no sampling, no reduction) of: F1 two threads x three steps (20 interleavings) x 9 script-template pairs {set-op-get, op-set-op, get-op-get}^2 x 64 mode pairs x 11 core operation kinds (round, div_rounded, mul_rounded, *, /, quantize, Display with precision, and *, /, mul_rounded, div_rounded on operands whose intermediate exceeds 128 bits) plus 8 mode pairs (every mode once on either thread) x 19 operand-form kinds (checked_round, checked_div, the integer-operand forms of / , checked_div and div_rounded in both positions incl. i128, /=, *=, the by-reference forms, Display with width and precision); F0 one thread: every mode x every one of the 30 kinds; F2 three threads x two steps (90 interleavings) x 2 script variants x the same (mode pair, kind) list; F5 ALL script pairs of three steps over the per-thread alphabet {Set(own mode), Set(RoundHalfEven), Op} (729 pairs x 20 interleavings x own-mode pairs: repeated, redundant and reset set_default calls); F3 lifecycle histories (thread dies then another is spawned; parent with non-default mode spawns child; child sets, parent re-observes; double set) x the same (mode pair, kind) list; F6 thread termination as a scheduled step (thread B runs every two-step script over {Set(own), Set(RoundHalfEven)} and then exits - joined, thread-local destructors run - at every point of thread A's set/op script; 8 scripts x 20 interleavings x (mode pair, kind) items); thorough: F4 three threads x three steps (1680 interleavings) x 336 mode assignments. Threads without an Exit step stay alive until the whole schedule has been executed, so thread termination never happens at an uncontrolled moment. Each schedule is executed on fresh OS threads; every Get/Op observation is compared with a per-thread reference model (map thread -> mode, initially RoundHalfEven). An Op observation is a 14-entry probe vector whose value identifies the mode the arithmetic really used. evaluations = schedules executed; states = distinct (family, program counters, model modes).".into(),
         exhaustive: true,
         assumptions: vec![
+            "thread termination is a scheduling event (Step::Exit, performed and joined by the controller); all other threads outlive the schedule".into(),
             "scheduling points are whole public API calls (there is no lock or atomic inside the library to intercept); instruction-level races inside one call are out of scope (DESIGN §6)".into(),
             "real OS threads are used because loom/shuttle run model threads as coroutines on one OS thread, which would share std's thread_local by construction".into(),
         ],
